@@ -221,6 +221,12 @@ def run_harness(binpath, env, timeout):
 
 def run_driver(driver, trace_path, extra_args=()):
     exe = os.path.join(LEAN, ".lake", "build", "bin", driver)
+    for _ in range(3):
+        if os.path.exists(exe):
+            break
+        # someone is rebuilding the executable: wait for the lake lock and make sure it exists
+        with Lock("lake"):
+            run(["lake", "build", driver], cwd=LEAN)
     with open(trace_path) as fh:
         p = subprocess.run([exe, *extra_args], stdin=fh, stdout=subprocess.PIPE, stderr=subprocess.STDOUT, text=True)
     return p.returncode, p.stdout
